@@ -1,4 +1,5 @@
 """C06 — symbolic equality, hashing and ordering obey their algebraic laws."""
+import contextlib
 import copy
 import functools
 
@@ -8,8 +9,9 @@ T = pg.typing
 MISSING = pg.MISSING_VALUE
 
 TIERS = {
-    'quick': dict(shards=8, cases=160, pool_min=20, pool_max=30),
-    'thorough': dict(shards=16, cases=1200, pool_min=20, pool_max=30),
+    'quick': dict(shards=8, cases=160, pool_min=20, pool_max=30, hist_values=3, hist_steps=6),
+    'thorough': dict(shards=16, cases=1200, pool_min=20, pool_max=30, hist_values=4,
+                     hist_steps=10),
 }
 RULE = ('case = one pool of 20-30 values built to collide: a small palette of atoms '
         '(numbers equal across bool/int/float, strings, None, MISSING_VALUE), tuples of '
@@ -23,11 +25,24 @@ RULE = ('case = one pool of 20-30 values built to collide: a small palette of at
         'class uses symbolic comparison, all triples are checked on the recorded results, '
         'and the pool is sorted with cmp_to_key(pg.lt). Non-trivial = at least 20 values, '
         'at least 5 top-level kinds, a nested value, and a pair of non-identical values of '
-        'different kinds that are pg.eq; distinct by the pool description.')
+        'different kinds that are pg.eq; distinct by the pool description. HISTORIES: after '
+        'the laws were evaluated on the freshly built pool (every memo a value may keep is '
+        'populated by then), a few pool members that contain a symbolic node are mutated in '
+        'place through the public write paths at any depth (accessor writes, list/dict '
+        'mutators, rebind issued on the node or on a symbolic ancestor; with notification, '
+        'inside pg.notify_on_change(False), with skip_notification=True, with '
+        'notify_parents=False); the same edit is applied to the plain description, and after '
+        'every step the live value and each of its symbolic sub-nodes is compared with a twin '
+        'freshly built from the description (eq both ways, ne, lt both ways, gt, pg.hash, '
+        '==/!=/hash() for opt-in classes); the queries of one step populate the memos for the '
+        'next (all nodes or a random subset). At the end the rows eq/lt(live, other) and '
+        'eq/lt(twin, other) against all other pool members must coincide.')
 REQUIRED_COUNTERS = ['pools', 'eq_calls', 'lt_calls', 'hash_calls', 'pairs_eq_true_nonidentical',
                      'trichotomy_checks', 'hash_agreement_checks', 'operator_checks',
                      'triples_eq_premise', 'triples_lt_premise', 'sort_runs', 'sorted_order_checks',
-                     'type_rank_checks', 'first_difference_checks']
+                     'type_rank_checks', 'first_difference_checks', 'history_steps',
+                     'history_silent_steps', 'history_twin_checks',
+                     'history_hash_agreement_checks', 'history_row_checks']
 ASSUMPTIONS = [
     'NaN is not generated (don\'t-care); tuples hold primitives of one mutually comparable '
     'family per pool (numbers or strings), as the quantifier says',
@@ -41,6 +56,12 @@ ASSUMPTIONS = [
     'a triple is reported only when none of its pairs already violates a pair law '
     '(attribution to the smallest witness)',
     'unequal values may hash equally; different-class/same-field collisions are only counted',
+    'histories: the laws quantify over values, not over how a value was reached; a value '
+    'mutated in place is the value its current content describes, so it must relate to a '
+    'freshly built value of that content like a twin. Only documented write semantics are '
+    'modelled (Python list/dict semantics of the mutators, rebind with MISSING_VALUE = delete '
+    'the key / reset the field to its default, pg.Insertion); nothing is written into sealed '
+    'or typed values (the pool has none)',
 ]
 LEVEL = 'exploration'
 
